@@ -1093,6 +1093,11 @@ func (t *tScreen) draw() {
 		for x := 0; x < t.w; x++ {
 			verifSched("draw.cell")
 			width := t.drawCell(x, y)
+			if width < 1 {
+				// outside of the cell buffer (which can be smaller than
+				// w x h while suspended or shut down): keep moving
+				width = 1
+			}
 			if width > 1 {
 				if x+1 < t.w {
 					// this is necessary so that if we ever
